@@ -6,14 +6,18 @@
  every parameter of a range must be present in the offer; no header selects the first offer.
  ***************************************************************************)
 EXTENDS Naturals, Sequences, FiniteSets, TLC, Json
-CONSTANTS Scope
+CONSTANTS MaxRanges, MaxOffers,   \* bounds for media-type negotiation
+          QSet, PSets,           \* q-values (in thousandths) and parameter sets of the range pool
+          TokMaxRanges           \* bound for token-list headers
 R(t, s, q, ps) == [type |-> t, sub |-> s, q |-> q, params |-> ps]
 Of(t, s, ps, ext) == [type |-> t, sub |-> s, params |-> ps, ext |-> ext]   \* ext # "": the offer is spelled as a file extension
 
 P1 == {<<"a", "1">>}
 P2 == {<<"a", "1">>, <<"b", "2">>}
-Qs == IF Scope = "quick" THEN {0, 500, 1000} ELSE {0, 500, 800, 1000}
-Pss == IF Scope = "quick" THEN {{}, P1} ELSE {{}, P1, P2}
+PSmall == {{}, P1}
+PFull == {{}, P1, P2}
+Qs == QSet
+Pss == PSets
 Shapes == {<<"*", "*">>, <<"text", "*">>, <<"text", "html">>, <<"text", "plain">>, <<"application", "json">>}
 Ranges == {R(sh[1], sh[2], q, ps) : sh \in Shapes, q \in Qs, ps \in Pss}
 OfferPool == {Of("text", "html", {}, ""), Of("text", "plain", {}, ""), Of("application", "json", {}, ""), Of("text", "html", P1, ""),
@@ -24,8 +28,6 @@ OfferPool == {Of("text", "html", {}, ""), Of("text", "plain", {}, ""), Of("appli
 Toks == {"t1", "t2", "t3"}
 TokRanges == {R(t, "", q, {}) : t \in Toks \cup {"*"}, q \in Qs}
 TokOffers == {Of(t, "", {}, "") : t \in Toks}
-MaxRanges == IF Scope = "quick" THEN 2 ELSE 3
-MaxOffers == IF Scope = "quick" THEN 2 ELSE 3
 
 VARIABLES header, offers, stage, kind
 vars == <<header, offers, stage, kind>>
@@ -51,7 +53,7 @@ Pick == IF header = <<>> THEN 1
 Seqs(S, n) == UNION {[1..m -> S] : m \in 0..n}
 Init == /\ stage = 0 /\ offers = <<>>
         /\ \/ kind = "media" /\ header \in Seqs(Ranges, MaxRanges)
-           \/ kind = "token" /\ header \in Seqs(TokRanges, MaxRanges + 1)
+           \/ kind = "token" /\ header \in Seqs(TokRanges, TokMaxRanges)
 Next == /\ stage = 0 /\ stage' = 1 /\ UNCHANGED <<header, kind>>
         /\ \E os \in Seqs(IF kind = "media" THEN OfferPool ELSE TokOffers, MaxOffers) : Len(os) > 0 /\ offers' = os
 Spec == Init /\ [][Next]_vars
